@@ -38,7 +38,9 @@ EXPLANATION = (
     "(boundary header values, every modulation with every TSC set, GMSK/EDGE bursts, NOPE, legacy flag) are turned into datagrams "
     "by TxMsg/RxMsg.gen_msg() under the concrete evaluator (rules.c16.Mach) and decoded by the evaluated PDU class - the values must be the "
     "message's fields; the writer layout extracted from the statements of gen_msg/append_hdr_to/gen_mts is an additional proof attempt that "
-    "is never a verdict by itself; R5 checks the batching structure; R6 evaluates every PDU class value-level (0..8 batched sub-PDUs with "
+    "is never a verdict by itself; R5 checks the batching structure; R7 folds the presence and length callbacks of every burst field that follows a "
+    "mod bit field over all 256 values of (nope, mod, tsc): each value that announces a burst gets a length (the encoder emits all of them, so a code "
+    "without a length is a PDU the definition encodes and cannot decode); R6 evaluates every PDU class value-level (0..8 batched sub-PDUs with "
     "differing BATCH flags) against the block semantics applied to its own layout.")
 ASSUMPTIONS = [
     "the codec building blocks behave as modelled (C16 decides those laws on codec.py); R4/R6 evaluate codec.py itself",
@@ -1120,6 +1122,103 @@ def r2_burst_len(L, repo, spec, W, pdus):
     return tab
 
 
+def _bit_domain(x):
+    """values the encoder of one named bit field accepts (C16: every value below 2**bl; the fixed value if one is set)"""
+    return [x["val"]] if x["val"] is not None else range(1 << x["bl"])
+
+
+def r7_length_totality(L, repo, spec, W, pdus):
+    """C17.R7 (exhaustive over the finite domain of the MTS octet).  Clauses decided: "decodes what it encodes" together
+    with "the burst length is determined by the modulation bits", quantified "for all field values ..., all modulation
+    codes".  A burst field whose length comes from a callback is encoded without the callback being consulted
+    (Field.to_bytes() takes the value as it is; C16 decides that on codec.py) and the bit-field encoder accepts every
+    value of the mod field, so every value of the bit-field set carrying `mod` is put on the wire with its burst.  The
+    decoder of the same definition obtains the burst's extent from the length callback alone: for every value of that
+    set under which the presence callback does not say "absent", the length callback must therefore return a length -
+    if it raises (or returns no natural number) no burst at all decodes for that code and the definition refuses its own
+    output.  Necessary for the property whatever lengths are documented: the rule demands a length, not a particular
+    one (R2 compares the values).  The callbacks are folded - by the constant evaluator, or by the concrete evaluator
+    when the definitions were built by it - over ALL values of the named bit fields of the set that carries `mod`
+    (nope x mod x tsc: 256 values), no sampling; how the callback or MTS.get_burst_len computes the length does not
+    enter."""
+    import itertools
+    R = "C17.R7"
+    nb = 0
+    nvals = 0
+    for pid, (obj, desc, cname) in pdus.items():
+        for i, e in enumerate(desc):
+            a = e["obj"].attrs
+            lam = a.get("get_len")
+            if e["kind"] != "buf" or not isinstance(lam, Lam):
+                continue
+            # the bit-field set (decoded before this field) that carries the modulation code
+            sets = [d for d in desc[:i] if d["kind"] == "bits" and any(x["name"] == "mod" and not x["spare"] for x in d["layout"])]
+            if not sets:
+                continue                        # length not driven by a modulation code (v0 Rx: R3)
+            if len(sets) != 1:
+                raise AnalysisError("%s: %d bit-field sets carry a field 'mod' before '%s'" % (cname, len(sets), a["name"]))
+            named = [x for x in sets[0]["layout"] if not x["spare"]]
+            size = 1
+            for x in named:
+                size *= len(_bit_domain(x))
+            if size > 4096:
+                raise AnalysisError("%s: the bit-field set carrying 'mod' has %d values - too many to enumerate" % (cname, size))
+            # other fields decoded earlier: any value will do for a callback that is determined by the modulation bits;
+            # a callback reading something that is not decoded yet raises KeyError in the toolkit as it does here
+            base = {}
+            for d in desc[:i]:
+                if d["kind"] == "bits":
+                    for x in d["layout"]:
+                        if not x["spare"]:
+                            base[x["name"]] = x["val"] if x["val"] is not None else 0
+                elif "bo" in d:                 # integer field
+                    base[d["name"]] = 0
+            pres = a.get("get_pres") if isinstance(a.get("get_pres"), Lam) else None
+            nb += 1
+            line = lam.node.lineno if hasattr(lam.node, "lineno") else e["obj"].ci.node.lineno
+            present = 0
+            bad = {}
+            memo = {}
+            for combo in itertools.product(*[_bit_domain(x) for x in named]):
+                v = dict(base)
+                v.update((x["name"], c) for x, c in zip(named, combo))
+                nvals += 1
+                try:
+                    if pres is not None and W.apply(pres, [dict(v)]) is False:
+                        continue                # no burst announced (NOPE / IDLE indication)
+                except Raised as ex:
+                    raise AnalysisError("%s '%s': presence callback raises %s" % (cname, a["name"], ex.cls))
+                except Unknown as ex:
+                    raise AnalysisError("%s presence callback does not fold: %s" % (cname, ex))
+                present += 1
+                try:
+                    got = W.apply(lam, [dict(v), b""])
+                except Raised as ex:
+                    got = "raises %s" % ex.cls
+                except Unknown as ex:
+                    raise AnalysisError("%s length callback %s does not fold: %s" % (cname, canon(lam.node)[:60], ex))
+                if not (isinstance(got, int) and not isinstance(got, bool) and got >= 0):
+                    bad.setdefault((v["mod"], brief_val(got)), []).append(v)
+            want = "a length for each of the %d values that announce a burst" % present
+            found = want
+            if bad:
+                mbl = [x["bl"] for x in named if x["name"] == "mod"][0]
+                found = "length callback %s gives no length for " % canon(lam.node)[:80] + ", ".join(
+                    "mod=0b%s (%s, for %d values with that code)" % (format(m, "0%db" % mbl), g, len(vs))
+                    for (m, g), vs in sorted(bad.items(), key=lambda kv: (kv[0][0], str(kv[0][1]))))
+            L.ob(R, FP, cname, "%s '%s': the length callback yields a burst length for every value of (%s) that announces a burst" %
+                 (cname, a["name"], " x ".join("%s:%d" % (x["name"], x["bl"]) for x in named)),
+                 want, found, not bad, line)
+            if present == 0:
+                raise AnalysisError("%s '%s': no value of the bit-field set announces a burst" % (cname, a["name"]))
+    L.floor(R, "burst fields with a length by modulation", nb, 5)
+    L.floor(R, "values of the MTS octet folded", nvals, 5 * 256)
+
+
+def brief_val(v):
+    return v if isinstance(v, str) else "returns %r" % (v,)
+
+
 def r3_v0rx(L, repo, spec, W, pdus):
     R = "C17.R3"
     obj, desc, cname = pdus["v0Rx"]
@@ -1667,6 +1766,7 @@ def run(L, tier):
         L.stage(r1_structure, L, spec, W, pdus)
         tab = L.stage(r2_burst_len, L, repo, spec, W, pdus)
         L.stage(r3_v0rx, L, repo, spec, W, pdus)
+        L.stage(r7_length_totality, L, repo, spec, W, pdus)
         # R4: decided by evaluating the message codec's datagrams against the evaluated definitions; the extraction of
         # the writer layout from the statements of gen_msg() is a proof attempt for all field values that is reported
         # only along with an evaluated counterexample
